@@ -96,6 +96,15 @@ func genCompact(prop string, seed uint64, tier string) *Scenario {
 			body.TriggerMs = append(body.TriggerMs, 400+vs.Intn(1200))
 		}
 	}
+	if re := ssched.Sub(seed, "reentry"); re.Intn(4) == 0 {
+		body.Clients = append(body.Clients, genReentryClient(re, 200))
+		body.TriggerMs = append(body.TriggerMs, 3000+re.Intn(4000))
+	}
+	if rn := ssched.Sub(seed, "renewal"); rn.Intn(4) == 0 {
+		body.Clients = append(body.Clients, genRenewalClient(rn, 100))
+		// a compaction some seconds after the renewals
+		body.TriggerMs = append(body.TriggerMs, 4500+rn.Intn(3000))
+	}
 	for i, n := 0, r.Intn(4); i < n; i++ {
 		body.TriggerMs = append(body.TriggerMs, 300+r.Intn(8000))
 	}
